@@ -3122,27 +3122,104 @@ func runR112(c *Ctx) {
 	}
 	if roundFn != nil {
 		key := fname(roundFn) + "|definition"
-		var r *ssa.Return
-		eachInstr(roundFn, func(in ssa.Instruction) {
-			if x, ok := in.(*ssa.Return); ok {
-				r = x
+		prm := ssa.Value(roundFn.Params[0])
+		isHalf := func(v ssa.Value, neg bool) bool {
+			f, ok := v.(*ssa.Const)
+			if !ok || f.Value == nil {
+				return false
 			}
-		})
-		okDef := false
-		if add, ok := strip(r.Results[0]).(*ssa.BinOp); ok && add.Op == token.ADD {
-			for _, pair := range [][2]ssa.Value{{add.X, add.Y}, {add.Y, add.X}} {
-				if strip(pair[0]) != ssa.Value(roundFn.Params[0]) {
+			if neg {
+				return f.Value.ExactString() == "-1/2"
+			}
+			return f.Value.ExactString() == "1/2"
+		}
+		// signKnown: the sign of the argument on entry to block b: +1 (n >= 0 or n > 0), -1 (n <= 0, n < 0 or the
+		// sign bit set), 0 unknown. At n == 0 both directions give int(+-0.5) == 0, so the weak forms suffice.
+		signKnown := func(b *ssa.BasicBlock) int {
+			for _, g := range dominatingGuards(b) {
+				cond, val := unNot(g.Cond, g.Val)
+				if cs := isCallTo(cond, "math", "Signbit"); cs != nil && strip(cs.Call.Args[0]) == prm {
+					if val {
+						return -1
+					}
+					return 1
+				}
+				cmp, ok := cond.(*ssa.BinOp)
+				if !ok {
 					continue
 				}
-				if cs := isCallTo(pair[1], "math", "Copysign"); cs != nil {
-					if f, ok := cs.Call.Args[0].(*ssa.Const); ok && f.Value != nil && f.Value.ExactString() == "1/2" && strip(cs.Call.Args[1]) == ssa.Value(roundFn.Params[0]) {
-						okDef = true
+				op, x, y := cmp.Op, strip(cmp.X), strip(cmp.Y)
+				if y == prm {
+					x, y = y, x
+					switch op {
+					case token.LSS:
+						op = token.GTR
+					case token.GTR:
+						op = token.LSS
+					case token.LEQ:
+						op = token.GEQ
+					case token.GEQ:
+						op = token.LEQ
+					}
+				}
+				zero, isC := y.(*ssa.Const)
+				if x != prm || !isC || zero.Value == nil || zero.Value.ExactString() != "0" {
+					continue
+				}
+				switch op {
+				case token.LSS, token.LEQ:
+					if val {
+						return -1
+					}
+					return 1
+				case token.GTR, token.GEQ:
+					if val {
+						return 1
+					}
+					return -1
+				}
+			}
+			return 0
+		}
+		var r *ssa.Return
+		okDef, n := true, 0
+		eachInstr(roundFn, func(in ssa.Instruction) {
+			x, ok := in.(*ssa.Return)
+			if !ok {
+				return
+			}
+			r = x
+			n++
+			one := false
+			if bo, ok := strip(x.Results[0]).(*ssa.BinOp); ok && (bo.Op == token.ADD || bo.Op == token.SUB) {
+				for _, pair := range [][2]ssa.Value{{bo.X, bo.Y}, {bo.Y, bo.X}} {
+					if strip(pair[0]) != prm || (bo.Op == token.SUB && pair[0] != bo.X) {
+						continue
+					}
+					if cs := isCallTo(pair[1], "math", "Copysign"); cs != nil && bo.Op == token.ADD {
+						if isHalf(cs.Call.Args[0], false) && strip(cs.Call.Args[1]) == prm {
+							one = true
+						}
+					}
+					// the branch form: n + 0.5 where n is not negative, n - 0.5 where it is not positive
+					dir := 0
+					switch {
+					case bo.Op == token.ADD && isHalf(pair[1], false), bo.Op == token.SUB && isHalf(pair[1], true):
+						dir = 1
+					case bo.Op == token.SUB && isHalf(pair[1], false), bo.Op == token.ADD && isHalf(pair[1], true):
+						dir = -1
+					}
+					if dir != 0 && signKnown(x.Block()) == dir {
+						one = true
 					}
 				}
 			}
-		}
-		if okDef {
-			c.ok(key, p.instrPos(r), "int(x + copysign(0.5, x)): nearest integer, halves away from zero")
+			if !one {
+				okDef = false
+			}
+		})
+		if okDef && n > 0 {
+			c.ok(key, p.instrPos(r), "int(x + copysign(0.5, x)), or int(x + 0.5) / int(x - 0.5) chosen by the sign of x: nearest integer, halves away from zero")
 		} else {
 			c.bad(key, p.instrPos(r), "the rounding helper is not int(x + math.Copysign(0.5, x)) ("+describe(r.Results[0])+"): values are rounded in the wrong direction")
 		}
